@@ -24,6 +24,7 @@ RULES = {
     "C19-b": "sticky flag: Write stores True or the incoming value; converters store False only when the incoming flag is falsy; groups use any()",
     "C19-c": "GUARD: a converter is skipped only if the artefact exists, overwrite is off and changed is falsy; an unchanged comparison reaches no write",
     "C19-d": "AGREE: one path variable is written, tested, read, stored and yielded by Write.run",
+    "C19-f": "template freshness: the default jinja environment keeps reloading changed templates (auto_reload not disabled)",
     "C19-e": "MakeFilename: existing names are replaced only under overwrite; prefix and suffix are deleted after use",
 }
 WRITE = "lena.output.write"
@@ -274,6 +275,17 @@ def check_converter(ctx, modname, qual, launch_names, artefact_hint):
                 ctx.check("C19-b", ok, st, "%s stores `%s` into output.changed" % (qual, A.src(v)), detail="store of the incoming flag", path=p)
         if launched:
             n_launch += 1
+            li = max(i for i, e in enumerate(p.ev) if e[0] == "stmt" and any(c in launched for c in A.walk_local(e[1])))
+            consts = [v for st, v in stores]
+            last_true = bool(consts) and A.is_const(consts[-1], True)
+            key = ("launch", last_true, tuple(A.src(v) for v in consts))
+            if key not in seen:
+                seen.add(key)
+                ctx.check("C19-a", last_true, launched[0], "%s launches the converter on path [%s] but leaves output.changed = %s: the "
+                          "%s is regenerated, yet artefacts derived from it downstream are told that nothing changed" % (
+                              qual, p.describe(), A.src(consts[-1]) if consts else "<unset>", artefact_hint),
+                          detail="%s: a launch is paired with output.changed = True" % qual,
+                          construct="launch-without-changed", path=p)
             continue
         if not ys:
             continue
@@ -397,7 +409,31 @@ def check_make_filename(ctx):
               detail="name = prefix + res + suffix once", construct="concat")
 
 
+def check_template_freshness(ctx):
+    """RenderLaTeX must see an edited template on the next run: the default jinja
+    environment is not configured to stop reloading templates."""
+    mod = ctx.tree.module("lena.output.render_latex")
+    bad = []
+    for n in ast.walk(mod.tree):
+        if isinstance(n, ast.keyword) and n.arg == "auto_reload" and A.is_const(n.value, False):
+            bad.append(n.value)
+        if isinstance(n, ast.Assign) and any(isinstance(t, ast.Subscript) and A.const(t.slice) == "auto_reload" for t in n.targets) \
+                and A.is_const(n.value, False):
+            bad.append(n)
+        if isinstance(n, ast.Dict):
+            for k, v in zip(n.keys, n.values):
+                if k is not None and A.const(k) == "auto_reload" and A.is_const(v, False):
+                    bad.append(v)
+    for b in bad:
+        ctx.violation("C19-f", b, "the jinja environment of RenderLaTeX is configured with auto_reload=False: a template edited between "
+                      "runs is rendered from the cached old version, so the .tex (and everything derived from it) does not match "
+                      "the current template", construct="auto_reload=False")
+    if not bad:
+        ctx.ok("C19-f", (mod.name, "<module>"), "no auto_reload=False in the default jinja environment")
+
+
 def check(ctx):
+    check_template_freshness(ctx)
     check_write(ctx)
     check_converter(ctx, "lena.output.latex_to_pdf", "LaTeXToPDF.run", {"launch"}, "pdf")
     check_converter(ctx, "lena.output.pdf_to_png", "PDFToPNG.run", {"_run_command"}, "image")
@@ -412,6 +448,7 @@ VARIANTS = [
       "                if data != existing_data:\n                    self._write_data(filepath, data)", ["C19-a"]),
     M("write-resets-flag", "lena/output/write.py", "                        print(\"# file unchanged, Write skips {}\"\\\n                              .format(filepath))\n                    outputc[\"changed\"] = changed",
       "                        print(\"# file unchanged, Write skips {}\"\\\n                              .format(filepath))\n                    outputc[\"changed\"] = False", ["C19-b"]),
+    M("pdf-launch-keeps-flag", "lena/output/latex_to_pdf.py", "                outputc[\"changed\"] = True\n                launch(", "                launch(", ["C19-a"]),
     M("pdf-false-unconditional", "lena/output/latex_to_pdf.py", "if not self._overwrite and os.path.exists(data) and not changed:",
       "if not self._overwrite and os.path.exists(data):", ["C19-b", "C19-c"]),
     M("pdf-no-exists", "lena/output/latex_to_pdf.py", "if not self._overwrite and os.path.exists(data) and not changed:",
